@@ -9,17 +9,27 @@
 (*            (`expect` = the whole delivered stream so far, `eof` = the end    *)
 (*            of the stream is demanded, `eofok` = it is allowed); afterwards   *)
 (*            no Read call is outstanding                                       *)
+(*   other    an operation on a SIBLING of the followed path (name class "suf":   *)
+(*            ends with the followed name, "pre": begins with it, "oth":         *)
+(*            unrelated): what = create | append | remove | rename (to the free  *)
+(*            sibling name `to`).  Follow!EnvOther: the expectation of every      *)
+(*            later drain is what it would be without it.  The siblings in Sibs   *)
+(*            exist when following starts.                                        *)
+(* Whether the followed path is the file's own name or a symbolic link to it is   *)
+(* not a parameter of the specification (Follow.tla: `cur` is what the path       *)
+(* leads to); the replay runs every history with both kinds of path.              *)
 (* Histories stay inside the specification's domain (dom), so every drain has  *)
 (* a definite expectation.  One JSON vector is printed per history that ends   *)
 (* with a drain.                                                               *)
 EXTENDS Follow, Json
 
 CONSTANTS Poll, Reopen, TailMode, InitLen, AppLens, MaxAppends, MaxRemoves, MaxCreates,
-          MaxStarts, MaxSettles, MaxDrains
+          MaxStarts, MaxSettles, MaxDrains,
+          Sibs, MaxOthers
 
-VARIABLES hist, inflight, nA, nR, nC, nS, nP, nD, nb
+VARIABLES hist, inflight, nA, nR, nC, nS, nP, nD, nb, sibs, nO
 
-gvars == <<mode, files, cur, start, delivered, ended, fresh, dom, hist, inflight, nA, nR, nC, nS, nP, nD, nb>>
+gvars == <<mode, files, cur, start, delivered, ended, fresh, dom, hist, inflight, nA, nR, nC, nS, nP, nD, nb, sibs, nO>>
 
 Run(from, n) == [i \in 1..n |-> from + i - 1]
 LastOp == IF hist = <<>> THEN "none" ELSE hist[Len(hist)].op
@@ -28,6 +38,7 @@ GInit ==
   /\ AInit([poll |-> Poll, reopen |-> Reopen, tail |-> TailMode], Run(65, InitLen))
   /\ hist = <<>> /\ inflight = FALSE
   /\ nA = 0 /\ nR = 0 /\ nC = 0 /\ nS = 0 /\ nP = 0 /\ nD = 0 /\ nb = 97
+  /\ sibs = Sibs /\ nO = 0
 
 GAppend ==
   /\ nA < MaxAppends /\ ~ended
@@ -36,34 +47,34 @@ GAppend ==
        /\ hist' = Append(hist, [op |-> "append", data |-> Run(nb, n)])
   /\ dom'
   /\ nA' = nA + 1 /\ inflight' = FALSE
-  /\ UNCHANGED <<nR, nC, nS, nP, nD>>
+  /\ UNCHANGED <<nR, nC, nS, nP, nD, sibs, nO>>
 
 GRemove ==
   /\ nR < MaxRemoves /\ ~ended /\ Drained
   /\ EnvRemove
   /\ hist' = Append(hist, [op |-> "remove"])
   /\ nR' = nR + 1
-  /\ UNCHANGED <<inflight, nA, nC, nS, nP, nD, nb>>
+  /\ UNCHANGED <<inflight, nA, nC, nS, nP, nD, nb, sibs, nO>>
 
 GCreate ==
   /\ nC < MaxCreates /\ ~ended
   /\ EnvCreate /\ dom'
   /\ hist' = Append(hist, [op |-> "create"])
   /\ nC' = nC + 1
-  /\ UNCHANGED <<inflight, nA, nR, nS, nP, nD, nb>>
+  /\ UNCHANGED <<inflight, nA, nR, nS, nP, nD, nb, sibs, nO>>
 
 GStart ==
   /\ nS < MaxStarts /\ ~inflight /\ ~ended /\ LastOp # "start"
   /\ inflight' = TRUE
   /\ hist' = Append(hist, [op |-> "start"])
   /\ nS' = nS + 1
-  /\ UNCHANGED <<mode, files, cur, start, delivered, ended, fresh, dom, nA, nR, nC, nP, nD, nb>>
+  /\ UNCHANGED <<mode, files, cur, start, delivered, ended, fresh, dom, nA, nR, nC, nP, nD, nb, sibs, nO>>
 
 GSettle ==
   /\ nP < MaxSettles /\ LastOp \notin {"none", "settle", "drain"}
   /\ hist' = Append(hist, [op |-> "settle"])
   /\ nP' = nP + 1
-  /\ UNCHANGED <<mode, files, cur, start, delivered, ended, fresh, dom, inflight, nA, nR, nC, nS, nD, nb>>
+  /\ UNCHANGED <<mode, files, cur, start, delivered, ended, fresh, dom, inflight, nA, nR, nC, nS, nD, nb, sibs, nO>>
 
 \* the reader catches up with everything the specification demands: Deliver(rest), then End if demanded
 GDrain ==
@@ -74,14 +85,31 @@ GDrain ==
   /\ hist' = Append(hist, [op |-> "drain", expect |-> Expected, eof |-> EndDemanded,
                            eofok |-> (~mode.reopen /\ cur # 1)])
   /\ inflight' = FALSE /\ nD' = nD + 1
-  /\ UNCHANGED <<mode, files, cur, start, dom, nA, nR, nC, nS, nP, nb>>
+  /\ UNCHANGED <<mode, files, cur, start, dom, nA, nR, nC, nS, nP, nb, sibs, nO>>
 
-GNext == GAppend \/ GRemove \/ GCreate \/ GStart \/ GSettle \/ GDrain
+\* something happens to a sibling of the followed path
+GOther ==
+  /\ nO < MaxOthers /\ ~ended
+  /\ EnvOther
+  /\ \E s \in Sibs :
+       \/ /\ s \in sibs /\ UNCHANGED sibs
+          /\ hist' = Append(hist, [op |-> "other", what |-> "append", name |-> s])
+       \/ /\ s \in sibs /\ sibs' = sibs \ {s}
+          /\ hist' = Append(hist, [op |-> "other", what |-> "remove", name |-> s])
+       \/ /\ s \notin sibs /\ sibs' = sibs \cup {s}
+          /\ hist' = Append(hist, [op |-> "other", what |-> "create", name |-> s])
+       \/ \E t \in Sibs \ sibs :
+            /\ s \in sibs /\ sibs' = (sibs \ {s}) \cup {t}
+            /\ hist' = Append(hist, [op |-> "other", what |-> "rename", name |-> s, to |-> t])
+  /\ nO' = nO + 1
+  /\ UNCHANGED <<inflight, nA, nR, nC, nS, nP, nD, nb>>
+
+GNext == GAppend \/ GRemove \/ GCreate \/ GStart \/ GSettle \/ GDrain \/ GOther
 
 \* sanity of the generator itself: the composed steps are steps of the specification
 GSafe == [][ANext \/ UNCHANGED avars \/ (DeliverAny \cdot End)]_avars
 
 Dump == (LastOp = "drain") =>
   PrintT("VFJ " \o ToJson([poll |-> Poll, reopen |-> Reopen, tail |-> TailMode,
-                           init |-> Run(65, InitLen), steps |-> hist]))
+                           init |-> Run(65, InitLen), sibs |-> Sibs, steps |-> hist]))
 =============================================================================
